@@ -222,7 +222,21 @@ class DocGen:
         if self.recursive and s.kind(tname) == "object" and self.rng.random() < 0.3:
             for f in s.fields(tname):
                 if base(f["type"]) == tname and f["name"] not in used and f["name"] not in forbid and not f.get("args"):
-                    if self.rng.random() < 0.5:
+                    r3 = self.rng.random()
+                    if r3 < 0.25:
+                        # mutual recursion: fn -> partner -> fn through the self-typed field
+                        self.fragn += 1
+                        partner = "Mutual%d" % self.fragn
+                        self.aliasn += 1
+                        leaf = next((g for g in s.fields(tname) if s.is_leaf(base(g["type"])) and not g.get("args")), None)
+                        psel = [["field", None, f["name"], None, [["spread", fn]]]]
+                        if leaf is not None:
+                            psel.insert(0, ["field", "mut%d" % self.aliasn, leaf["name"], None, None])
+                        self.frags[partner] = {"name": partner, "on": tname, "sel": psel}
+                        self.frag_order.append(partner)
+                        sub.append(["field", None, f["name"], None, [["spread", partner]]])
+                        self.features.add("mutually-recursive-fragments")
+                    elif r3 < 0.6:
                         sub.append(["field", None, f["name"], None, [["spread", fn]]])
                         self.features.add("recursive-fragment-alias-form")
                     else:
